@@ -197,7 +197,23 @@ def indentation_program(rnd):
     return rnd.choice(["\n", "\n", "\r\n", "\r"]).join(lines) + rnd.choice(["", "\n"])
 
 
+# characters an editor or a file transfer puts in front of, or into, a text without showing them:
+# byte-order mark, zero-width space / joiner / word joiner, soft hyphen, direction marks
+INVISIBLE = ["\ufeff", "\u200b", "\u200d", "\u2060", "\u00ad", "\u200e", "\ufffe", "\x00", "\x1a"]
+
+
 def build_text(rnd):
+    klass, text = build_text_plain(rnd)
+    r = rnd.random()
+    if r < 0.06:
+        return klass + "+invisible-prefix", rnd.choice(INVISIBLE) + text
+    if r < 0.10 and text:
+        k = rnd.randrange(len(text))
+        return klass + "+invisible-inside", text[:k] + rnd.choice(INVISIBLE) + text[k:]
+    return klass, text
+
+
+def build_text_plain(rnd):
     k = rnd.random()
     if k < 0.3:
         return "token-soup", textmut.token_soup(rnd)
